@@ -11,7 +11,7 @@ import time
 HERE = os.path.dirname(os.path.abspath(__file__))
 ROOT = os.path.abspath(os.path.join(HERE, '..'))
 LEAN = os.path.join(ROOT, 'lean')
-REPO = '/repo'
+REPO = os.environ.get('SOUPVERIF_REPO', '/repo')      # default: the repository itself; an override is for scratch copies only
 
 STD_AXIOMS = {'propext', 'Classical.choice', 'Quot.sound'}
 FORBIDDEN = re.compile(r'\b(sorry|admit|native_decide|bv_decide|implemented_by)\b|^\s*axiom\s|\bunsafe\s|maxHeartbeats\s+0\b', re.M)
@@ -198,11 +198,13 @@ class Check:
 MODULES = {
     'C01': ['C01', 'C01Attr', 'C01Sat', 'C01Ns', 'C01Has'],
     'C03': ['C03', 'C03Wrappers'],
+    'C07': ['C07', 'C07Parse'],
     'C18': ['C18', 'C18Range'],
 }
 AUDITS = {
     'C01': ['C01', 'C01Attr', 'C01Sat', 'C01Has'],
     'C03': ['C03', 'C03Wrappers'],
+    'C07': ['C07', 'C07Parse'],
     'C18': ['C18', 'C18Range'],
 }
 
